@@ -18,7 +18,7 @@ NOT_CARRIED = ["the comment / indentation / tag-name / hanging-string parsers ar
                "termination of Many over non-consuming children (excluded by the property's own quantifier)"]
 
 
-def bounded(check):
+def _bounded0(check):
     """bounded stand-ins: (a) the shipped tag-expression grammar against boolean evaluation under the stated precedence; (b) every small grammar
     term against a reference PEG interpreter, and the shipped JSON grammar against json.loads"""
     import json, os, subprocess
@@ -49,3 +49,8 @@ def bounded(check):
             out["replay"] = path
         outs.append(out)
     return outs
+
+
+def bounded(check):
+    from props._xcheck import xcheck
+    return list(_bounded0(check)) + [xcheck(check, ['parsr'], 'parsr')]
